@@ -700,6 +700,35 @@ def bool_transfer(body, bb, known, pins=None):
                     val = ("v", vi)                 # Ok(0) -> Continue(0), Err(1) -> Break(1)
                 elif tn == "core::option::Option":
                     val = ("v", 1 - vi)             # None(0) -> Break(1), Some(1) -> Continue(0)
+        elif callee(t).startswith("core::slice::<impl [T]>::") and callee(t).rsplit("::", 1)[-1] in (
+                "first", "last", "split_first", "split_last", "get", "first_chunk", "split_first_chunk") and t["args"]:
+            # Some / None of a slice accessor when the slice's length is pinned for a case split
+            a_ = op_local(t["args"][0])
+            tgt = None
+            for s_ in reversed(blk["stmts"]):
+                if s_.get("s") == "assign" and s_["p"]["l"] == a_ and not s_["p"]["p"]:
+                    rv_ = s_["rv"]
+                    if rv_["r"] == "ref" and all(e_ == "deref" for e_ in rv_["p"]["p"]):
+                        tgt = rv_["p"]["l"]
+                    break
+            if tgt is None and a_ is not None and ("len", a_) in known:
+                tgt = a_
+            if tgt is not None and ("len", tgt) in known:
+                n_ = known[("len", tgt)][1]
+                m_ = callee(t).rsplit("::", 1)[-1]
+                need = None
+                if m_ in ("first", "last", "split_first", "split_last"):
+                    need = 1
+                elif m_ == "get" and len(t["args"]) == 2:
+                    kv = _known_operand(t["args"][1], known)
+                    if kv is not None and kv[0] == "i":
+                        need = kv[1] + 1
+                elif m_ in ("first_chunk", "split_first_chunk"):
+                    cs = [str(x_.get("v", x_.get("s", ""))) if isinstance(x_, dict) else str(x_) for x_ in (t.get("f") or {}).get("a", [])]
+                    ds_ = [int(c_) for c_ in cs if c_.isdigit()]
+                    need = ds_[0] if len(ds_) == 1 else None
+                if need is not None:
+                    val = ("v", 1 if n_ >= need else 0)
         elif callee(t) in ("core::slice::<impl [T]>::len", "core::slice::<impl [T]>::is_empty") and len(t["args"]) == 1:
             # length of a slice whose length is pinned for a case split: the argument is `&*s` built in this block
             a_ = op_local(t["args"][0])
